@@ -2,6 +2,7 @@
    concrete instances (extreme draws; the open short-supply finding C13-S1). *)
 From Coq Require Import List ZArith Lia Bool Arith QArith Qcanon.
 From PV Require Import Base.Index Np.Array Model.Sparse Model.Harness Alg.C13Samplers Alg.C13Solver.
+From PV Require Import Model.Repr Model.C08Kruskal Alg.C13Config Alg.C13Vec.
 Import ListNotations.
 Local Open Scope Z_scope.
 
@@ -69,6 +70,25 @@ Proof.
   intros Hn. unfold even_weights. rewrite wsum_repeat, repeat_length. split; [|reflexivity].
   field. unfold zq. intros H. apply Q2Qc_eq_iff in H. unfold Qeq in H. cbn in H. lia.
 Qed.
+
+(* the weights samplers.stratified / semistrat attach: num_nonzeros weights nnz/num_nonzeros, then num_zeros weights
+   zeros/num_zeros (zeros = size - nnz for stratified, size for semi-stratified) — sized and scaled by the REQUEST, whatever
+   its relation to the number of nonzeros / zeros there are (requests larger than nnz draw with replacement) *)
+Definition strat_weights (nnzq zerosq : Qc) (cn cz : nat) : list Qc := even_weights nnzq cn ++ even_weights zerosq cz.
+Theorem strat_weights_total nnzq zerosq cn cz :
+  length (strat_weights nnzq zerosq cn cz) = (cn + cz)%nat /\
+  ((0 < cn)%nat -> wsum (firstn cn (strat_weights nnzq zerosq cn cz)) = nnzq) /\
+  ((0 < cz)%nat -> wsum (skipn cn (strat_weights nnzq zerosq cn cz)) = zerosq).
+Proof.
+  unfold strat_weights.
+  assert (L : length (even_weights nnzq cn) = cn) by (unfold even_weights; apply repeat_length).
+  split; [|split].
+  - rewrite app_length, L. unfold even_weights. now rewrite repeat_length.
+  - intros H. rewrite firstn_app, L, Nat.sub_diag. cbn [firstn]. rewrite app_nil_r, <- L at 1. rewrite firstn_all.
+    now apply even_weights_total.
+  - intros H. rewrite skipn_app, L, Nat.sub_diag. cbn [skipn]. rewrite <- L at 1. rewrite skipn_all. cbn [app].
+    now apply even_weights_total.
+Qed.
 Local Close Scope Qc_scope.
 
 (* ---- solver bookkeeping over a stream of observed estimates ----
@@ -99,4 +119,28 @@ Example stratified_short_supply_lengths_differ :
   let S := mkSp [2; 2]%nat [[0; 0]; [1; 0]; [0; 1]]%nat [5; 6; 7] in
   let draws := [[0; 0]; [D53 - 1; D53 - 1]; [D53 - 1; 0]] in
   length (zstrat_subs S [0; 1; 2] [1%nat] draws 2) = 2%nat /\ length (zstrat_vals S [1%nat] 2) = 3%nat.
+Proof. split; reflexivity. Qed.
+
+(* ---- LBFGSB.solve replayed: scipy is the oracle, its observed answer (final vector, final f) is the input ----
+   All floats of one case are scaled by one common denominator (tovec / update only move data), callbacks are a unit type. *)
+Definition zlb_solve (K0 : ktensor Z) (lb : option Z) (x : list Z) (fx : Z) : outcome (ktensor Z) Z Z unit unit :=
+  lbfgsb_solve (ktensor Z) Z Z unit unit (tovec_f Z 0) (update_all Z 0) (fun _ => 0)
+               (fun _ _ _ _ => (x, fx)) (mkKw unit unit (UserCb unit None) tt) K0 lb.
+Definition zfactors_eqb := list_eqb (list_eqb vec_eqb).
+(* observation: the start vector and the number of bound pairs handed to scipy, the factor matrices of the returned model
+   (raw rows), info["final_f"]; the returned model must be scipy's vector read back through update — NOT any other point *)
+Definition zlb_ok (K0 : ktensor Z) (lb : option Z) (x : list Z) (fx : Z)
+           (x0_obs : list Z) (nbounds : nat) (factors_obs : list (list (list Z))) (final_f_obs : Z) : bool :=
+  let o := zlb_solve K0 lb x fx in
+  vec_eqb (tovec_f Z 0 K0) x0_obs && Nat.eqb (length (o_bounds _ _ _ _ _ o)) nbounds &&
+  forallb (fun b => match lb, fst b with None, None => true | Some u, Some v => Z.eqb u v | _, _ => false end)
+          (o_bounds _ _ _ _ _ o) &&
+  zfactors_eqb (kfactors (o_model _ _ _ _ _ o)) factors_obs && vec_eqb (kweights (o_model _ _ _ _ _ o)) (kweights K0) &&
+  Z.eqb (o_final_f _ _ _ _ _ o) final_f_obs &&
+  match lb with None => true | Some b => forallb (fun v => Z.leb b v) (tovec_f Z 0 (o_model _ _ _ _ _ o)) end.
+
+Example zlb_example :   (* 2x1 (+) 3x1 model; scipy answers [9;8;7;6;5]: the returned factors are that vector, column-wise *)
+  let K0 := mkK [1] [[[1]; [2]]; [[3]; [4]; [5]]] in
+  zlb_ok K0 (Some 0) [9; 8; 7; 6; 5] 42 [1; 2; 3; 4; 5] 5 [[[9]; [8]]; [[7]; [6]; [5]]] 42 = true /\
+  zlb_ok K0 (Some 0) [9; 8; 7; 6; 5] 42 [1; 2; 3; 4; 5] 5 [[[9]; [8]]; [[7]; [6]; [4]]] 42 = false.
 Proof. split; reflexivity. Qed.
